@@ -5,6 +5,7 @@ func init() {
 		Run: func(c *Ctx) {
 			ruleStatusFlow(c, "C02.1")
 			ruleOutcomeLatched(c, "C02.1b")
+			ruleInvokeReportsOutcome(c, "C02.11")
 			ruleSingleOutcome(c, "C02.2")
 			rulePublishBeforeWake(c, "C02.3")
 			ruleHeaderPublication(c, "C02.4")
